@@ -26,9 +26,31 @@ def main():
         mod = importlib.import_module(f"props.{a.prop}")
         kwargs = mod.run(rep, kf, a.tier, seed) or {}
     except BaseException as e:  # noqa
-        traceback.print_exc()
-        rep.crash = f"{type(e).__name__}: {e}"
-        kwargs = {}
+        from .replay import GeneratorCrashed
+        crashed = e if isinstance(e, GeneratorCrashed) else None
+        if crashed is None:
+            # (worker processes re-raise: look through the chain)
+            c = e
+            while c is not None and crashed is None:
+                crashed = c if isinstance(c, GeneratorCrashed) else None
+                c = c.__cause__ or c.__context__
+        if crashed is not None:
+            # the real generator raised on one of the harness's (valid) documents: that is a violation to report, with the
+            # document as replay -- not a crash of the checker
+            from .core import Obligation, REFUTED
+            ob = Obligation(id=f"{a.prop}.native.generator-returns-diagnostics-on-the-probe-documents", props=[a.prop, "C06"],
+                            unit="openapi_python_client.generate on a schematic / probe document of this check", backend="cpython (native run)",
+                            formula="generate() returns its diagnostics for every document of the harness (it does not raise)",
+                            status=REFUTED, detail=f"generate() raised {crashed.what}; {crashed.tb.strip().splitlines()[-3:] if crashed.tb else ''}")
+            if isinstance(crashed.document, dict):
+                ob.witness = {"kind": "generate", "document": crashed.document, "config": crashed.config, "meta": crashed.meta,
+                              "violates": "False", "observe": "'generate() returned'", "exception_is_violation": True}
+            rep.add(ob)
+            kwargs = {}
+        else:
+            traceback.print_exc()
+            rep.crash = f"{type(e).__name__}: {e}"
+            kwargs = {}
     kwargs.setdefault("checker_cmd", f"./check {a.prop} --tier {a.tier}")
     if a.tier == "thorough" and not rep.crash and os.environ.get("PYVC_REPO", "/repo") == "/repo" \
             and not os.environ.get("PYVC_NO_SELFTEST"):
